@@ -32,14 +32,22 @@ def check(pid, tier, seed, replay=None):
             rng = random.Random(seed)
             chains = []
             ctxs = ["none", "fields", "ts"]
+            sets = ["", "unixms", "durint", "", "unixnano", "dursec", "prec3", "", "unix", "unixmicro"]
             for i, s in enumerate(seqs):
-                # every chain on an enabled and on a level-filtered logger; context and finalizer rotate
+                # every chain on an enabled and on a level-filtered logger; context, finalizer, argument value class and
+                # global settings rotate (the fast paths are allocation-free for every value and setting, not only the plain ones)
                 for enabled in (True, False):
-                    chains.append({"a": "Chain", "chain": s, "ctx": ctxs[(i + (0 if enabled else 1)) % 3], "enabled": enabled, "fin": "Msg" if i % 2 == 0 else "Send"})
+                    chains.append({"a": "Chain", "chain": s, "ctx": ctxs[(i + (0 if enabled else 1)) % 3], "enabled": enabled, "fin": "Msg" if i % 2 == 0 else "Send",
+                                   "var": (i // 3 + (0 if enabled else 1)) % 3, "set": sets[(i + (0 if enabled else 3)) % len(sets)]})
+                if len(s) == 1:
+                    # single-method chains: every argument value class under every setting
+                    for var in range(3):
+                        for st in sorted(set(sets)):
+                            chains.append({"a": "Chain", "chain": s, "ctx": "none", "enabled": True, "fin": "Msg", "var": var, "set": st})
             meths = sorted({m for s in seqs for m in s})
             for i in range(3000 if thorough else 300):   # longer random chains, still within the pooled buffer
                 chains.append({"a": "Chain", "chain": [rng.choice(meths) for _ in range(rng.randint(3, 6))], "ctx": rng.choice(ctxs),
-                               "enabled": rng.random() < 0.7, "fin": rng.choice(["Msg", "Send"])})
+                               "enabled": rng.random() < 0.7, "fin": rng.choice(["Msg", "Send"]), "var": rng.randrange(3), "set": rng.choice(sets)})
         lines = [json.dumps(c) for c in chains]
         log("%s: %d chains %.0fs" % (pid, len(chains), time.time() - t0))
         ov = make_overlay(sc, "alloc", [{"path": p, "imports": {"sync": "vsync"}} for p in ("event.go", "array.go")], ["vsched", "vsync"], [])
@@ -60,7 +68,7 @@ def check(pid, tier, seed, replay=None):
             for ri, k, e, sig in bads:
                 what = ("%s build, chain %s on a %s logger (%s, %s): " % (e.get("build"), "+".join(e["chain"]), "enabled" if e["enabled"] else "level-filtered", e["ctx"], e["fin"]))
                 what += ("pool gets=%s puts=%s fresh=%s" % (e.get("gets"), e.get("puts"), e.get("fresh")) if e["kind"] == "pool" else "%s allocs/run, %s writes/run" % (e["allocs"], e["writes_per_run"]))
-                v.violation(what, {"property": pid, "chain": {k2: e[k2] for k2 in ("a", "chain", "ctx", "enabled", "fin")}, "record": e})
+                v.violation(what + " [value class %s, settings %r]" % (e.get("var"), e.get("set")), {"property": pid, "chain": {k2: e.get(k2) for k2 in ("a", "chain", "ctx", "enabled", "fin", "var", "set")}, "record": e})
             log("%s: %s build done %.0fs" % (pid, name, time.time() - t0))
         nchains = len(chains)
         cov = {"evaluations": total, "distinct_nontrivial": nchains, "rule": "chains = every sequence of <= %d methods over the %d allocation-free methods (TLC, AllocChain.tla), each on an enabled and a level-filtered logger with rotating context {none, fields, timestamp hook} and finalizer {Msg, Send}, plus seeded random chains of 3-6 methods; distinct = distinct (chain, context, enabled, finalizer) tuples; each is measured on three builds" % (3 if thorough else 2, 44),
